@@ -16,7 +16,9 @@ use std::sync::Arc;
 fn main() {
     let mut text = String::new();
     std::io::stdin().read_to_string(&mut text).expect("stdin");
-    let case: case::Case = serde_json::from_str(&text).expect("case JSON");
+    let mut de = serde_json::Deserializer::from_str(&text);
+    de.disable_recursion_limit();
+    let case: case::Case = serde::Deserialize::deserialize(&mut de).expect("case JSON");
     let log = simrt::run_case_std(&Arc::new(case));
     println!("{}", serde_json::to_string(&log).unwrap());
 }
